@@ -66,7 +66,8 @@ Cases(d) ==
     \cup { [srcs |-> <<a, b>>, bases |-> <<>>, mode |-> "plain", norm |-> FALSE] : a \in Profs(5), b \in Profs(7) }
     \cup { [srcs |-> <<a>>, bases |-> <<b>>, mode |-> m, norm |-> FALSE] : a \in Profs(5), b \in Profs(7), m \in {"base", "diff_base"} }
     \* -normalize against a base whose total in one column is zero: that column of the source is scaled to nothing
-    \cup { [srcs |-> <<P(1, <<S2(1, <<1, 3>>), S2(2, <<1, 1>>)>>)>>, bases |-> <<P(1, <<S2(3, <<4, 0>>)>>)>>, mode |-> m, norm |-> TRUE] : m \in {"base", "diff_base"} }
+    \cup { [srcs |-> <<P(1, <<S2(1, <<1, 3>>), S2(2, <<1, 1>>)>>)>>, bases |-> <<b>>, mode |-> m, norm |-> TRUE] : m \in {"base", "diff_base"},
+             b \in { P(1, <<S2(3, <<4, 0>>)>>), P(1, <<S2(3, <<3, 2>>), S2(2, <<1, 0 - 2>>)>>) } }   \* a zero column total without any zero value
     \* three units in the order coarse, finest, intermediate
     \cup { [srcs |-> <<P(2, <<S2(1, a)>>), P(6, <<S2(k, b)>>), P(1, <<S2(1, <<1, 3>>)>>)>>, bases |-> <<>>, mode |-> "plain", norm |-> FALSE] :
              a \in {<<1, 3>>, <<2, 2>>}, b \in {<<5, 0>>, <<1, 3>>, <<7, 1>>}, k \in {1, 2} }
